@@ -1,6 +1,7 @@
 CONSTANTS
   N = 2
   MaxTasks = 2
+  G = 1
   Dev = {}
   KeepHist = FALSE
 INIT GInit
